@@ -422,7 +422,9 @@ Fixpoint expand_doc (env : list (string * string)) (d : doc) : doc :=
 with expand_list env (l : docs) : docs :=
   match l with DLnil => DLnil | DLcons d r => DLcons (expand_doc env d) (expand_list env r) end
 with expand_map env (m : dmap) : dmap :=
-  match m with DMnil => DMnil | DMcons k d r => DMcons k (expand_doc env d) (expand_map env r) end.
+  match m with DMnil => DMnil | DMcons k d r => DMcons (expand_str env k) (expand_doc env d) (expand_map env r) end.
+(* os.ExpandEnv works on the TEXT of the file: with conf.UseEnv() a reference in a KEY is expanded
+   like one in a string value (numbers, booleans and punctuation contain no '$') *)
 
 (* conf.Load(file, opts...) on the document: the text is expanded only with conf.UseEnv() *)
 Definition load_file (rf : fmt -> string -> string) (T : fields) (f : fmt) (use_env : bool)
